@@ -335,6 +335,9 @@ func renamedSibling(r *hx.Rand, script []RegT) []RegT {
 			ps = append(ps, i)
 		}
 	}
+	if len(ps) == 0 { // a colon inside a segment ("/a:b"): no parameter to rename
+		return script
+	}
 	k := hx.Pick(r, ps)
 	name := hx.Pick(r, []string{"name", "key", "slug"})
 	sib := append([]string{}, segs[:k]...)
